@@ -14,7 +14,9 @@ from . import eqcommon as E
 PROP = "C11"
 RULE = ("every spec of the universes with <=5 atoms (isolated atoms, attributes, descriptors incl. placeholders, stereo changes) "
         "x every mapping with injective induced total map: all total permutations (n<=4; family above), injection into a fresh pool, "
-        "all partial mappings (every subset of atoms sent to fresh ids; every pair swapped; a mapping that mentions only absent ids) "
+        "all partial mappings (every subset of atoms sent to fresh ids; every pair swapped; a mapping that mentions only absent ids), "
+        "a mapping onto identifiers whose Python hashes coincide (-1/-2, n/n+2^61-1); plus a 7-coordinate centre and 133-atom graphs "
+        "under a reduced mapping family "
         "x {copy, in place}.  Oracle: (a) snapshot == reference renaming, source untouched for copy / same object returned in place; "
         "(b) copy and in-place agree; (c) relabelling back with the inverse mapping restores the snapshot; (d) differential: every "
         "single follow-up edit and ==/hash behaves on the relabelled graph exactly as on a freshly built graph with the same content.  "
@@ -36,6 +38,8 @@ def specs(tier):
     S += [g for g in U.stars(5) if len(g.atoms) == 6][::(4 if tier == "quick" else 1)]
     S += [g for g in U.two_unit() if len(g.atoms) <= 6]
     S += [g for g in U.scrg_universe("quick") if g.atoms][::(2 if tier == "quick" else 1)]
+    # a 7-coordinate centre without descriptor, graphs of 133 atoms (reduced mapping family for these)
+    S += [g for g in U.hubs("quick") if g.kind in (SMG, SCRG)][:2] + [g for g in U.large("quick")]
     out = []
     for i, g in enumerate(S):
         if i % 4 == 0:
@@ -50,21 +54,37 @@ def specs(tier):
     return out
 
 
+COLLIDING = [-1, -2, 2 ** 61 - 1, 0, 2 ** 61 + 4, 5, -3, 2 ** 62 - 5, 2 ** 61 - 4, 7]   # hash(-1) == hash(-2), hash(n) == hash(n + 2^61 - 1)
+
+
 def mappings(m, tier):
     ids = list(m.atoms)
     n = len(ids)
     out = []
-    for p in E._perm_family(ids, 4 if tier == "thorough" else 3):
+    big = n > 6
+    for p in E._perm_family(ids, 4 if tier == "thorough" else 3, few=big):
         if list(p) != ids:
             out.append(("total-perm", dict(zip(ids, p))))
-    out.append(("total-pool", dict(zip(ids, E.POOLS[0]))))
+    if n <= len(E.POOLS[0]):
+        out.append(("total-pool", dict(zip(ids, E.POOLS[0]))))
     out.append(("total-shift", {a: a + 1 for a in ids}))     # chain a -> a+1: images collide with sources unless simultaneous
-    for k in range(1, n):
-        for S in itertools.combinations(ids, k):
-            out.append(("partial-fresh", {a: 100 + i for i, a in enumerate(S)}))
-    for a, b in itertools.combinations(ids, 2):
-        if n > 2:
-            out.append(("partial-swap", {a: b, b: a}))
+    # identifiers whose Python hashes coincide: the first atoms are sent to -1, -2, 2^61-1, 0, ... (the rest keeps its place,
+    # shifted out of the way)
+    cm = {a: (COLLIDING[i] if i < len(COLLIDING) else a + 10 ** 6) for i, a in enumerate(ids)}
+    out.append(("total-colliding", cm))
+    if big:
+        for S in (ids[:1], ids[::2], ids[1:]):
+            out.append(("partial-fresh", {a: 10 ** 5 + i for i, a in enumerate(S)}))
+        for a, b in ((ids[0], ids[1]), (ids[0], ids[-1]), (ids[n // 2], ids[n // 3])):
+            if a != b:
+                out.append(("partial-swap", {a: b, b: a}))
+    else:
+        for k in range(1, n):
+            for S in itertools.combinations(ids, k):
+                out.append(("partial-fresh", {a: 100 + i for i, a in enumerate(S)}))
+        for a, b in itertools.combinations(ids, 2):
+            if n > 2:
+                out.append(("partial-swap", {a: b, b: a}))
     out.append(("absent-only", {max(ids) + 500: max(ids) + 501}))
     out.append(("empty", {}))
     out.append(("with-absent", {ids[0]: max(ids) + 300, max(ids) + 500: max(ids) + 501}))
@@ -73,7 +93,9 @@ def mappings(m, tier):
 
 def items(tier, seed):
     n = len(specs(tier))
-    return [{"lo": lo, "hi": min(n, lo + 3), "tier": tier} for lo in range(0, n, 3)]
+    nbig = 5      # the hub / large specs appended last: one item each, started first
+    return [{"lo": i, "hi": i + 1, "tier": tier} for i in range(n - nbig, n)] + \
+        [{"lo": lo, "hi": min(n - nbig, lo + 3), "tier": tier} for lo in range(0, n - nbig, 3)]
 
 
 def _try(f):
@@ -145,7 +167,10 @@ def run_item(item):
                     nd[mtype] = nd.get(mtype, 0) + 1
                     if nd[mtype] > 4:
                         continue
-                for op in C10.edits(exp) + [["eq"], ["hash"], ["matrix"], ["components"], ["bonded_all"], ["str"], ["views_index"]]:
+                edits = C10.edits(exp)
+                if len(m.atoms) > 6:     # (hub / large specs: a stride through the edit menu, at most ~25 edits)
+                    edits = edits[::max(1, len(edits) // 25)]
+                for op in edits + [["eq"], ["hash"], ["matrix"], ["components"], ["bonded_all"], ["str"], ["views_index"]]:
                     src0 = U.build(m)
                     hh = src0.relabel_atoms(dict(mp), copy=(mode == "copy"))
                     ff = U.build(exp)
